@@ -112,6 +112,16 @@ impl ErrCode for std::convert::Infallible {
 pub trait Inspect {
     fn flags(&self) -> (usize, usize, bool);
     fn user(&mut self) -> &mut St;
+    /// whether a saved match (`last_match`, a private field) is present, read off the `Debug` output
+    fn saved_match(&self) -> bool;
+}
+
+/// `last_match: Some(..)` / `last_match: None` in the derived `Debug` output of `lexgen_util::Lexer`
+pub fn saved_match_of_debug(dbg: &str) -> bool {
+    match dbg.rfind("last_match: ") {
+        Some(i) => dbg[i + "last_match: ".len()..].starts_with("Some"),
+        None => false,
+    }
 }
 
 pub struct Case {
@@ -127,7 +137,7 @@ pub struct Case {
 }
 
 /// A clonable iterator over a rope of chunks.
-#[derive(Clone)]
+#[derive(Clone, Debug)]
 pub struct RopeIter {
     chunks: std::rc::Rc<Vec<Vec<char>>>,
     chunk: usize,
@@ -180,7 +190,7 @@ pub fn initial_state(case: &Case) -> St {
     }
 }
 
-fn step<L, E>(lx: &mut L, out: &mut String, prefix: &str)
+fn step<L, E>(lx: &mut L, out: &mut String, prefix: &str, short: bool)
 where
     L: Iterator<Item = Result<(Loc, Tok, Loc), LexerError<E>>> + Inspect,
     E: ErrCode,
@@ -195,18 +205,21 @@ where
         },
     };
     let (state, initial, done) = lx.flags();
+    // the saved match is observed on short inputs only (formatting the lexer is linear in the input)
+    let saved = if short { if lx.saved_match() { "1" } else { "0" } } else { "-" };
     let user = lx.user();
     let logs = user.log.join(" ; ");
     user.log.clear();
     let counter = user.counter;
     writeln!(
         out,
-        "{}N {} | S {} {} {} | U {} | {}",
+        "{}N {} | S {} {} {} {} | U {} | {}",
         prefix,
         item_s,
         state,
         initial,
         if done { 1 } else { 0 },
+        saved,
         counter,
         logs
     )
@@ -218,17 +231,18 @@ where
     L: Iterator<Item = Result<(Loc, Tok, Loc), LexerError<E>>> + Inspect + Clone,
     E: ErrCode,
 {
+    let short = case.input.chars().count() <= 64;
     for k in 0..case.ncalls {
         if case.clone_points.contains(&k) {
             // the clone runs to the end first; the original must be unaffected
             let mut c = lx.clone();
             writeln!(out, "CLONE {}", k).unwrap();
             for _ in k..case.ncalls {
-                step(&mut c, out, "C");
+                step(&mut c, out, "C", short);
             }
             writeln!(out, "ENDCLONE").unwrap();
         }
-        step(&mut lx, out, "");
+        step(&mut lx, out, "", short);
     }
 }
 
@@ -309,12 +323,15 @@ where
 #[macro_export]
 macro_rules! runner {
     ($lexer:ident) => {
-        impl<'input, I: Iterator<Item = char> + Clone> $crate::Inspect for $lexer<'input, I> {
+        impl<'input, I: Iterator<Item = char> + Clone + std::fmt::Debug> $crate::Inspect for $lexer<'input, I> {
             fn flags(&self) -> (usize, usize, bool) {
                 (self.0.__state, self.0.__initial_state, self.0.__done)
             }
             fn user(&mut self) -> &mut $crate::St {
                 self.0.state()
+            }
+            fn saved_match(&self) -> bool {
+                $crate::saved_match_of_debug(&format!("{:?}", self.0))
             }
         }
 
